@@ -93,7 +93,8 @@ with dec_elem (fuel : nat) (s : sx) {struct fuel} : elem :=
       | 8%Z => ETime (dec_tv a)
       | 9%Z => ERefl (dec_rv a)
       | 10%Z => EObj (dec_objm f a)
-      | _ => EArr (dec_arrm f a)
+      | 11%Z => EArr (dec_arrm f a)
+      | _ => EFail (sx_b a)
       end
   end.
 
